@@ -257,7 +257,7 @@ impl<T: Abs + PartialEq> Abs for CborWrap<T> {
         Some(CborWrap(T::build(v)?))
     }
     fn same(&self, o: &Self) -> bool {
-        self == o
+        self.0.same(&o.0)
     }
 }
 impl<T: Abs + PartialEq> Abs for TagWrap<T, 30> {
@@ -380,16 +380,101 @@ impl Script for KeepRaw<'_, MaybeIndefArray<AnyUInt>> {
         true
     }
 }
+impl Script for Vec<KeepRaw<'_, MaybeIndefArray<AnyUInt>>> {
+    fn script(&mut self) -> bool {
+        if let Some(x) = self.first_mut() {
+            x.script();
+        }
+        true
+    }
+}
+impl Script for KeepRaw<'_, Vec<KeepRaw<'_, MaybeIndefArray<AnyUInt>>>> {
+    fn script(&mut self) -> bool {
+        self.deref_mut().script()
+    }
+}
+impl Script for CborWrap<KeepRaw<'_, Vec<u32>>> {
+    fn script(&mut self) -> bool {
+        self.0.script()
+    }
+}
 macro_rules! no_script { ($($t:ty),* $(,)?) => { $( impl Script for $t {} )* } }
 no_script!(
     AnyUInt, MaybeIndefArray<AnyUInt>, MaybeIndefArray<MaybeIndefArray<AnyUInt>>,
     MaybeIndefArray<KeyValuePairs<AnyUInt, MaybeIndefArray<AnyUInt>>>,
     KeyValuePairs<AnyUInt, AnyUInt>, KeyValuePairs<AnyUInt, MaybeIndefArray<AnyUInt>>, KeyValuePairs<u32, u32>,
     NonEmptyKeyValuePairs<AnyUInt, AnyUInt>, Nullable<AnyUInt>, Nullable<MaybeIndefArray<AnyUInt>>,
-    Vec<KeepRaw<'_, MaybeIndefArray<AnyUInt>>>, AnyCbor, Vec<AnyCbor>, Set<u32>, NonEmptySet<u32>,
+    AnyCbor, Vec<AnyCbor>, Set<u32>, NonEmptySet<u32>,
     CborWrap<u32>, CborWrap<MaybeIndefArray<AnyUInt>>, TagWrap<u32, 30>, ZeroOrOneArray<u32>,
     OrderPreservingProperties<Prop>, EmptyMap, Bytes, Int, Thing
 );
+
+/// bytes written before and after the script, for one way of holding the value
+fn ba<X: Script + Encode<()>>(mut x: X) -> Value {
+    let before = minicbor::to_vec(&x).expect("encode");
+    x.script();
+    let after = minicbor::to_vec(&x).expect("encode");
+    json!({"before": bytes_json(&before), "after": bytes_json(&after)})
+}
+
+/// every way the public API offers to obtain a `KeepRaw` holding the decoded value
+fn kr_origins<T>(v: KeepRaw<'_, T>) -> Map<String, Value>
+where
+    T: Clone + Encode<()>,
+    for<'x> KeepRaw<'x, T>: Script,
+{
+    let mut m = Map::new();
+    m.insert("owned".into(), ba(v.clone().to_owned()));
+    m.insert("clone".into(), ba(v.clone()));
+    m.insert("owned_clone".into(), ba(v.clone().to_owned().clone()));
+    m.insert("from".into(), ba(KeepRaw::from(v.deref().clone())));
+    m.insert("decoded".into(), ba(v));
+    m
+}
+
+type Mia = MaybeIndefArray<AnyUInt>;
+
+fn origins(ty: &str, bytes: &[u8]) -> Option<Value> {
+    let r = catch(|| match ty {
+        "keepraw<vec<u32>>" => minicbor::decode::<KeepRaw<'_, Vec<u32>>>(bytes).ok().map(|v| {
+            let mut m = kr_origins(v.clone());
+            // serde: Serialize shows the content, Deserialize builds a KeepRaw without raw bytes
+            if let Ok(j) = pv_core::serde_json::to_value(&v) {
+                if let Ok(d) = pv_core::serde_json::from_value::<KeepRaw<'static, Vec<u32>>>(j) {
+                    m.insert("serde".into(), ba(d));
+                }
+            }
+            m
+        }),
+        "keepraw<mia<anyuint>>" => minicbor::decode::<KeepRaw<'_, Mia>>(bytes).ok().map(kr_origins),
+        "keepraw<vec<keepraw<mia<anyuint>>>>" => minicbor::decode::<KeepRaw<'_, Vec<KeepRaw<'_, Mia>>>>(bytes).ok().map(kr_origins),
+        "vec<keepraw<mia<anyuint>>>" => minicbor::decode::<Vec<KeepRaw<'_, Mia>>>(bytes).ok().map(|v| {
+            let owned: Vec<KeepRaw<'static, Mia>> = v.iter().cloned().map(|x| x.to_owned()).collect();
+            let mut m = Map::new();
+            m.insert("owned_clone".into(), ba(owned.clone()));
+            m.insert("owned".into(), ba(owned));
+            m.insert("clone".into(), ba(v.clone()));
+            m.insert("from".into(), ba(v.iter().map(|x| KeepRaw::from(x.deref().clone())).collect::<Vec<KeepRaw<'static, Mia>>>()));
+            m.insert("decoded".into(), ba(v));
+            m
+        }),
+        "cborwrap<keepraw<vec<u32>>>" => minicbor::decode::<CborWrap<KeepRaw<'_, Vec<u32>>>>(bytes).ok().map(|v| {
+            let mut m = Map::new();
+            m.insert("owned".into(), ba(CborWrap(v.0.clone().to_owned())));
+            m.insert("owned_clone".into(), ba(CborWrap(v.0.clone().to_owned()).clone()));
+            m.insert("clone".into(), ba(v.clone()));
+            m.insert("from".into(), ba(CborWrap(KeepRaw::from(v.0.deref().clone()))));
+            m.insert("decoded".into(), ba(v));
+            m
+        }),
+        _ => None,
+    });
+    match r {
+        Ok(Some(m)) => Some(Value::Object(m)),
+        Ok(None) => None,
+        Err(p) => Some(json!({"panic": p})),
+    }
+}
 
 macro_rules! run_as {
     ($T:ty, $row:expr) => {{
@@ -475,6 +560,8 @@ fn dispatch(row: &Value) -> Value {
         "keepraw<vec<u32>>" => run_as!(KeepRaw<'_, Vec<u32>>, row),
         "keepraw<mia<anyuint>>" => run_as!(KeepRaw<'_, A<U>>, row),
         "vec<keepraw<mia<anyuint>>>" => run_as!(Vec<KeepRaw<'_, A<U>>>, row),
+        "keepraw<vec<keepraw<mia<anyuint>>>>" => run_as!(KeepRaw<'_, Vec<KeepRaw<'_, A<U>>>>, row),
+        "cborwrap<keepraw<vec<u32>>>" => run_as!(CborWrap<KeepRaw<'_, Vec<u32>>>, row),
         "anycbor" => run_as!(AnyCbor, row),
         "vec<anycbor>" => run_as!(Vec<AnyCbor>, row),
         "set<u32>" => run_as!(Set<u32>, row),
@@ -498,6 +585,11 @@ pub fn replay(args: &Args) {
     let mut out = Ndjson::create(args.get("out"));
     for (i, row) in rows.iter().enumerate() {
         let mut r = dispatch(row);
+        if row["mutable"].as_bool() == Some(true) {
+            if let Some(o) = origins(jstr(&row["ty"]), &jbytes(&row["bytes"])) {
+                r["origins"] = o;
+            }
+        }
         r["i"] = json!(i);
         r["ty"] = row["ty"].clone();
         out.ev(r);
